@@ -65,6 +65,8 @@ type Reader struct {
 	failing bool
 	// ReadsAfterEOF counts calls made after EOF/error was already returned
 	ReadsAfterEnd int
+	// Injected is set once a Fail answer has been given
+	Injected bool
 	ended         bool
 }
 
@@ -85,6 +87,7 @@ func (r *Reader) Read(p []byte) (int, error) {
 	}
 	switch a.Kind {
 	case Fail:
+		r.Injected = true
 		n := a.K
 		if n > remaining {
 			n = remaining
@@ -144,6 +147,14 @@ type Writer struct {
 	WritesAfterFailure int
 	failed             bool
 }
+
+// Injected reports whether a Fail answer has been given.
+func (w *Writer) Injected() bool { return w.failed }
+
+// WriteString makes the Writer an io.StringWriter too (same script, same call counter).
+type StringWriter struct{ Writer }
+
+func (w *StringWriter) WriteString(s string) (int, error) { return w.Write([]byte(s)) }
 
 func (w *Writer) Write(p []byte) (int, error) {
 	i := w.Calls
